@@ -33,7 +33,15 @@ def main():
         print(json.dumps(data, indent=1)[:4000])
         return 0
     chk = Check(a.pid, tier, seed)
-    return mod.run(chk)
+    try:
+        return mod.run(chk)
+    except Exception as e:      # an exception escaping from the implementation (or the harness) on a generated case
+        import traceback
+        tb = traceback.format_exc()
+        in_impl = "/src/bob/learn/em/" in tb
+        chk.fail(("the implementation raised %r on a generated case" if in_impl else "the check itself failed with %r") % (e,),
+                 {"traceback": tb.splitlines()[-25:], "raised_inside_implementation": in_impl})
+        return chk.finish(rule="aborted by an exception; see the replay file")
 
 
 if __name__ == "__main__":
